@@ -304,7 +304,16 @@ class SdkRun:
                         sub.instantiate(self.conn.app_id, {template_name("t1"): (vals[0] + 3) % 8})
                     except Exception:
                         pass
-                sub.instantiate(self.conn.app_id, {template_name(f"t{j + 1}"): v for j, v in enumerate(vals)})
+                # the values are handed over in a dict the application owns and reuses: it is overwritten (with other values) right
+                # after instantiate() returns, before the commit
+                args_ = getattr(self, "_argdict", None)
+                if args_ is None:
+                    args_ = self._argdict = {}
+                args_.clear()
+                args_.update({template_name(f"t{j + 1}"): v for j, v in enumerate(vals)})
+                sub.instantiate(self.conn.app_id, args_)
+                for k_ in list(args_):
+                    args_[k_] = (args_[k_] + 5) % 8
                 self.conn.commit_subroutine(sub)
                 self.obs.append(self.snapshot_flush(False))
             except (rig.ControllerFault, rig.ScriptExhausted) as ex:
